@@ -152,7 +152,10 @@ def strip_api(lines):
             run.append(l)
             continue
         if run:
-            out += sorted(run)
+            # destructors that run while a FAILING iteration is torn down (unwinding) are runtime
+            # behaviour outside the model: not compared
+            if not l.startswith("RUN panic"):
+                out += sorted(run)
             run = []
         out.append(l)
     if run:
